@@ -1004,6 +1004,15 @@ func (s *SecureChannel) sendAsyncWithTimeout(
 		return nil, err
 	}
 
+	// give the sequence number back if its chunk is never written:
+	// the numbers on the wire must be contiguous
+	numbered := true
+	defer func() {
+		if numbered {
+			instance.sequenceNumber--
+		}
+	}()
+
 	var resp chan *MessageBody
 	var sent bool
 
@@ -1042,6 +1051,7 @@ func (s *SecureChannel) sendAsyncWithTimeout(
 		}
 		if i > 0 { // fix sequence number on subsequent chunks
 			number := instance.nextSequenceNumber()
+			numbered = true
 			binary.LittleEndian.PutUint32(chunk[16:], uint32(number))
 		}
 
@@ -1051,6 +1061,7 @@ func (s *SecureChannel) sendAsyncWithTimeout(
 		}
 
 		// send the message
+		numbered = false
 		var n int
 		s.c.SetWriteDeadline(time.Now().Add(timeout))
 		if n, err = s.c.Write(chunk); err != nil {
@@ -1078,6 +1089,16 @@ func (s *SecureChannel) writeMessageChunks(ctx context.Context, instance *channe
 	// These limits are already enforced on the receive path (see the chunk-count
 	// and message-size checks in Receive) but not on send (OPC UA Part 6 §6.7.2;
 	// cf. open62541 adjustCheckMessageLimitsSym, .NET MessageLimitsExceeded).
+	// newMessage has taken a sequence number for the first chunk. Give a
+	// number back if its chunk is never written: the numbers on the wire must
+	// be contiguous.
+	numbered := true
+	defer func() {
+		if numbered {
+			instance.sequenceNumber--
+		}
+	}()
+
 	chunks, err := m.EncodeChunks(instance.maxBodySize)
 	if err != nil {
 		return 0, err
@@ -1097,6 +1118,7 @@ func (s *SecureChannel) writeMessageChunks(ctx context.Context, instance *channe
 			// after the first must advance it before signing so the on-wire sequence
 			// remains monotonic.
 			number := instance.nextSequenceNumber()
+			numbered = true
 			binary.LittleEndian.PutUint32(chunk[16:], uint32(number))
 		}
 
@@ -1106,6 +1128,7 @@ func (s *SecureChannel) writeMessageChunks(ctx context.Context, instance *channe
 		if err != nil {
 			return bytesSent, err
 		}
+		numbered = false
 
 		// UASC writes are expected to flush complete chunks. Treat short writes as
 		// a hard error instead of silently truncating the response stream.
